@@ -27,6 +27,8 @@ fn bits(m: i128) -> u32 {
 }
 
 pub const MAX_SHIFT: u32 = 10;
+/// DOUBLE prints 15 digits exactly: 2^-14 = 0.00006103515625 still does
+pub const MAX_SHIFT_DOUBLE: u32 = 14;
 
 impl Num {
     pub fn new(ty: Ty, m: i128, s: u32) -> Num {
@@ -98,7 +100,7 @@ impl Num {
                 }
             }
             Ty::Double => {
-                if self.s > MAX_SHIFT {
+                if self.s > MAX_SHIFT_DOUBLE {
                     return Err(NumErr::Inexact);
                 }
                 if bits(self.m) > 53 { Err(NumErr::Inexact) } else { Ok(()) }
@@ -179,7 +181,7 @@ impl Num {
         while num % den != 0 {
             num <<= 1;
             k += 1;
-            if k > MAX_SHIFT + 2 {
+            if k > MAX_SHIFT_DOUBLE + 2 {
                 return Err(NumErr::Inexact);
             }
         }
